@@ -621,6 +621,10 @@ class MatInterp:
                     if p is not None and p[0] is not None:
                         return self.call_function(p[0], [], {})
                 raise Unknown('attribute self.%s' % e.attr)
+            if e.attr == 'shape':
+                b = self.ev(e.value, env, fn)
+                if b.kind == 'mat':
+                    return Val('tuple', [Val('scal', self.dim(0, e.value, env, fn)), Val('scal', self.dim(1, e.value, env, fn))])
             if e.attr == 'size':
                 b = self.ev(e.value, env, fn)
                 if b.kind == 'vecsym':
